@@ -31,6 +31,26 @@ class SymStr:
     def __repr__(self):
         return "SymStr(" + "".join(p if isinstance(p, str) else "{?}" for p in self.parts) + ")"
 
+    # a structured text is a string: its methods / concatenation are those of the abstract-string model (pyvc/strmodel.py)
+    def __pyvc_getattr__(self, eng, name):
+        from . import strmodel
+
+        return strmodel.method(eng, self, name)
+
+    def __pyvc_binop__(self, eng, op, a, b):
+        from . import strmodel
+
+        if isinstance(op, ast.Add) and strmodel.is_strlike(a) and strmodel.is_strlike(b):
+            return SymStr(strmodel.flatten(a) + strmodel.flatten(b))
+        if isinstance(op, ast.Add) and isinstance(a, tuple) and type(a) is not tuple:
+            return a + b  # a contract module's own structured-text class (tuple subclass with __add__)
+        if isinstance(op, ast.Add) and isinstance(b, tuple) and type(b) is not tuple:
+            return a + b
+        raise Unsupported(f"{type(op).__name__} on a structured string")
+
+    def __pyvc_isinstance__(self, cls):
+        return cls is str
+
 
 class FmtPiece:
     """format(v, spec) of a symbolic scalar: kept structured for contracts."""
@@ -525,7 +545,7 @@ def contains(eng, container, item):
         return container.__pyvc_contains__(eng, item)
     if isinstance(container, PDict):
         if container.items is not None:
-            if isinstance(item, Sym):
+            if isinstance(item, Sym) or hasattr(item, "__pyvc_compare__"):
                 raise Unsupported("symbolic `in` on a concrete dict")
             return item in container.items
         return eng.sbool(z3.Select(container.dom, to_z3(item, "int")))
@@ -550,7 +570,7 @@ def contains(eng, container, item):
             acc = eng.or_(acc, eng.compare(ast.Eq(), item, x))
         return acc
     if isinstance(container, (tuple, list, set, frozenset, dict, str, range)):
-        if isinstance(item, Sym):
+        if isinstance(item, Sym) or hasattr(item, "__pyvc_compare__"):
             acc = False
             for x in container:
                 acc = eng.or_(acc, eng.compare(ast.Eq(), item, x))
@@ -605,6 +625,9 @@ def _m_extend(eng, recv, args, kwargs):
     if recv.items is not None:
         if not recv.items and isinstance(src, SArr):
             return _extend_empty_by_array(eng, recv, src)
+        tail = src.seq if isinstance(src, Iter) and not src.consumed else src
+        if isinstance(tail, PList) and tail.items is None and not tail.tup and getattr(eng, "extend_hook", None) is None:
+            return _extend_concrete_by_symbolic(eng, recv, src, tail)
         recv.items.extend(iterate_concrete(eng, src))
         return None
     hook = getattr(eng, "extend_hook", None)
@@ -629,6 +652,25 @@ def _m_extend(eng, recv, args, kwargs):
             _m_append(eng, recv, [x], {})
         return None
     raise Unsupported("extend of a symbolic list by this kind of iterable")
+
+
+def _extend_concrete_by_symbolic(eng, recv, src, tail):
+    """concrete_list.extend(symbolic list): the list becomes a symbolic one, its present elements followed by the elements of the
+    iterable in order (the present elements must be storable under the element kind / protocol of the iterable)"""
+    from . import strmodel
+
+    kind, proto = tail.kinds[0], tail.proto
+    ids = [strmodel.elem_id(eng, x, kind, proto) for x in recv.items]
+    k = len(ids)
+    i = z3.Int(fresh_name("ex"))
+    body = z3.Select(tail.cols[0], i - k)
+    for j in range(k - 1, -1, -1):
+        body = z3.If(i == j, ids[j], body)
+    recv.items, recv.kinds, recv.tup = None, [kind], False
+    recv.cols, recv.n, recv.proto = [z3.Lambda([i], body)], z3.simplify(k + zint(tail.n)), proto
+    if isinstance(src, Iter):
+        src.consumed = True
+    return None
 
 
 def _extend_empty_by_array(eng, recv, src):
@@ -1205,6 +1247,8 @@ def _b_str(eng, args, kwargs):
     v = args[0]
     if isinstance(v, (Sym, SymStr, FmtPiece)):
         return FmtPiece(v, "str")
+    if hasattr(v, "__pyvc_isinstance__") and v.__pyvc_isinstance__(str):
+        return v  # str(s) of an (abstract) string is the string
     return str(unwrap(v))
 
 
@@ -1378,11 +1422,20 @@ def inplace_binop(eng, op, cur, val):
 
 def concat_lists(eng, a, b):
     """list + list where at least one side has symbolic length."""
+    other = {id(a): b, id(b): a}
+
     def view(p):
         if p.items is not None:
             items = p.items
             ks = [kind_of(x) for x in items]
             if any(k is None for k in ks):
+                o = other[id(p)]
+                if o.items is None and not o.tup and o.kinds == ["ref"]:
+                    # concrete strings / object handles next to a symbolic list of references: stored under the other side's element protocol
+                    from . import strmodel
+
+                    ids = [Sym(strmodel.elem_id(eng, x, "ref", o.proto), "ref") for x in items]
+                    return len(ids), ["ref"] * len(ids), (lambda i, k: _ite_chain(ids, i, k))
                 raise Unsupported("concatenation with a list of non-scalars")
             return len(items), ks, (lambda i, k: _ite_chain(items, i, k))
         if p.tup:
@@ -1399,6 +1452,9 @@ def concat_lists(eng, a, b):
     out.items, out.kinds, out.tup = None, [k], False
     out.cols = [z3.Lambda([i], z3.If(i < naz, ga(i, k), gb(i - naz, k)))]
     out.n = z3.simplify(naz + zint(nb))
+    protos = [p.proto for p in (a, b) if p.items is None and p.proto is not None]
+    if protos and all(q is protos[0] for q in protos):
+        out.proto = protos[0]
     return out
 
 
